@@ -129,10 +129,16 @@ func (r *Reflog) Show() {
 			referenceString = color.BlueString("HEAD -> ") + fmt.Sprintf("%s, ", record.Head) + referenceString
 		}
 
+		// record without commit id has nil hash
+		hashString := strings.Repeat("0", 7)
+		if record.Hash != nil {
+			hashString = record.Hash.String()[:7]
+		}
+
 		if referenceString == "" {
-			fmt.Printf("%s HEAD@{%d}: %s: %s\n", color.YellowString(record.Hash.String()[:7]), i, record.recType, record.message)
+			fmt.Printf("%s HEAD@{%d}: %s: %s\n", color.YellowString(hashString), i, record.recType, record.message)
 		} else {
-			fmt.Printf("%s (%s) HEAD@{%d}: %s: %s\n", color.YellowString(record.Hash.String()[:7]), referenceString, i, record.recType, record.message)
+			fmt.Printf("%s (%s) HEAD@{%d}: %s: %s\n", color.YellowString(hashString), referenceString, i, record.recType, record.message)
 		}
 	}
 }
